@@ -2,6 +2,7 @@ import Chartparse.Tie.BpmStep
 import Chartparse.Props.C01
 import Chartparse.Props.C11
 import Chartparse.Props.C12
+import Chartparse.Props.C15
 /-! What the leaf ties buy at the level of the property theorems: statements about **the dumped code** (the ASTs of /repo's working
     tree under the embedded semantics), not about the hand model.
     * the tempo accumulation of the hand model (`buildFrom`) is the iteration of the dumped step of `BPMEvent.from_parsed_data`;
@@ -149,6 +150,25 @@ theorem C12_strict_code (res : Nat) (hres : 1 ≤ res) (pairs : List (Nat × Nat
     (hE : exactUs res pairs b < 1000000000000) : x < y :=
   Props.C12.C12_strict res hres pairs hn hslow evs hb a b hab x y ga.toNat gb.toNat (tsAt_of_code _ _ _ _ _ _ ha)
     (tsAt_of_code _ _ _ _ _ _ hbq) hE
+
+end Chartparse.Tie
+
+namespace Chartparse.Tie
+open Chartparse Chartparse.Py Chartparse.Tempo Chartparse.F64
+
+/-- **C15 for the dumped query**: no time for a tick before the map — for every map, resolution and hint -/
+theorem C15_negative_code (res : Int) (evs : List BpmEv) (tick : Int) (hint : Nat) (h : tick < 0) :
+    queryCode res evs tick hint = .error .valueError := by
+  unfold queryCode
+  rw [tsAt_tie, Props.C15.C15_negative res evs tick hint h]
+  rfl
+
+/-- … and whenever the dumped query does return a time, the tempo event it names has a positive tempo and the resolution is positive:
+    a zero or negative tempo, or resolution, never yields a time for a tick it governs -/
+theorem C15_zero_bpm_code (res : Int) (evs : List BpmEv) (tick : Int) (hint : Nat) (x g : Int)
+    (h : queryCode res evs tick hint = .ok (.pair (.td x) (.int g))) :
+    ∃ ev, evs[g.toNat]? = some ev ∧ 0 < ev.bpm ∧ 0 < res :=
+  Props.C15.C15_zero_bpm res evs tick hint x g.toNat (tsAt_of_code _ _ _ _ _ _ h)
 
 end Chartparse.Tie
 
